@@ -48,7 +48,7 @@ def replay_comb(pid, v):
     os.makedirs(out, exist_ok=True)
     bp = os.path.join(out, "replay_one.ndjson")
     open(bp, "w").write(json.dumps(v["case"]) + "\n")
-    bindir = build_harness(["combinators"])
+    bindir = build_harness(["combinators"], v.get("features"), v.get("tag", "default"))
     mism, summary, _ = run_bin(bindir, "combinators", ["replay", bp, v.get("seed", 1)] + (["--times-only"] if v.get("times_only") else []))
     return mism[0] if mism else None
 
@@ -59,6 +59,20 @@ def c02(ctx):
     jobs = [("wide", comb_cfg(ALL_COMBS, 4 if q else 5, True)),
             ("narrow", comb_cfg(["SumN", "ProductN", "Latest"], 6 if q else 8, False))]
     run_combinators(ctx, jobs)
+    # the exponent stream uses the power function of the build: replay the cases under the no_std float back ends as well
+    import p_config
+    wide = os.path.join(ctx.out, "wide.ndjson")
+    for tag in ("libm_check", "micromath_check"):
+        bindir = build_harness(["combinators"], p_config.CONFIGS[tag][0], tag)
+        mism, summary, _ = run_bin(bindir, "combinators", ["replay", wide, ctx.seed], timeout=600)
+        ctx.evaluations += summary.get("replays", 0)
+        ctx.extra["replay_summary_" + tag] = summary
+        for m in mism[:10]:
+            case = json.loads(vlib.nth_line(wide, m["line"]))
+            ctx.violation("%s:%s:%s" % (m["comb"], m["what"], tag), {"replay_kind": "combinators", "case": case, "mismatch": m, "seed": ctx.seed,
+                                                                  "features": p_config.CONFIGS[tag][0], "tag": tag},
+                          "[%s build] %s case #%d %s: %s; specification predicts %s, implementation returned %s" % (
+                              tag, m["comb"], m["line"], json.dumps(case["case"]), m["what"], json.dumps(m["exp"]), json.dumps(m["got"])))
     ctx.rule = ("Every assignment of {Err1, Err2, Absent, Some(t)} (t over 3 ranks; Booleans Some(true/false)) to the inputs of each of the 18 "
                 "stateless getters, arities 1..5 (1..8 with the reduced outcome set {Err1, Absent, Some}), clock outcomes and age <,=,> limit for "
                 "the expirer; TLC checks table = Kleene logic, De Morgan duality, Sum2/Product2 = n-ary, timestamp and slot laws on each case "
